@@ -1,0 +1,33 @@
+//! Verification hooks (feature `verif`, off by default).
+//!
+//! Add-only: this module re-exports crate-private modules so that an external harness can drive
+//! internal components directly. Nothing here changes behaviour.
+#![allow(unused_imports)]
+
+pub mod bitvec {
+    pub use crate::bitvec::*;
+}
+pub mod engine {
+    pub use crate::engine::*;
+}
+pub mod errors {
+    pub use crate::errors::*;
+}
+pub mod ingest {
+    pub use crate::ingest::*;
+}
+pub mod mem_store {
+    pub use crate::mem_store::*;
+}
+pub mod scheduler {
+    pub use crate::scheduler::*;
+}
+pub mod stringpack {
+    pub use crate::stringpack::*;
+}
+pub mod syntax {
+    pub use crate::syntax::*;
+}
+pub mod disk_store {
+    pub use crate::disk_store::*;
+}
